@@ -273,18 +273,13 @@ def handleOps (op : String) (args : List String) (impl : Impl) : Option Ans :=
     let e ← parseEp? e
     -- the generator only emits integer-valued doubles; decode the integer from the bits
     let k ← Hifi.Drive.Epoch.intOfF64Bits f
-    -- `k as f64 * 1e9` is exact iff k·10^9 has at most 53 significant bits (odd part below 2^53)
-    let prod := k.natAbs * 1000000000
-    let tz := (List.range 80).foldl (fun (acc : Nat) _ => if acc % 2 == 0 && acc != 0 then acc / 2 else acc) prod
-    let exact := decide (tz < 9007199254740992)
-    let m : Ep := ⟨Dur.add e.dur (nsDur (k * 1000000000)), e.ts⟩
-    -- inexact products (|k| beyond ~4.6e9 s, recorded as D19: inherent to `f64 * 1e9`): the model evaluates
-    -- the same binary64 product with hardware floats; the property's statement does not cover them
-    let bits := f.toList.foldl (fun acc c => acc * 16 + (if c.isDigit then c.toNat - 48 else c.toNat - 87)) 0
-    let mf : Ep := ⟨Dur.add e.dur (Hifi.Views.unitMulF 1000000000.0 (Float.ofBits (UInt64.ofNat bits))), e.ts⟩
-    pure { model := if exact then "ok " ++ showEp m else "ok " ++ showEp mf,
-           spec := if exact then judgeEpValue impl e.ts (clampD (sval e.dur + k * 1000000000)) else noPanic impl,
-           branch := "eaddf:" ++ (if exact then "exact_product" else "inexact_product") }
+    -- a whole number of seconds goes through `(seconds as i64) * Unit::Second` (saturating cast, exact integer
+    -- product, saturating sum): exact for EVERY integer-valued double
+    let m : Ep := e.addWholeSeconds k
+    let inR := inRange (k * 1000000000) && inRange (sval e.dur + k * 1000000000)
+    pure { model := "ok " ++ showEp m,
+           spec := if inR then judgeEpValue impl e.ts (sval e.dur + k * 1000000000) else noPanic impl,
+           branch := "eaddf:" ++ (if !inR then "saturating" else if k.natAbs * 1000000000 < 9007199254740992 then "small" else "beyond_2^53_ns") }
   | "eroundtrip", [e, d] => do
     let e ← parseEp? e; let d ← parseDur? d
     let s := Dur.add e.dur d
